@@ -1,5 +1,5 @@
 # plan and claim for C11 (ZUC stream cipher and MACs); J and both are injected by driver/plan.py
-_CFG = ["avx2", "sse", "noclmul", "noaes", "purego", "ia32"]
+_CFG = ["avx2", "sse", "noclmul", "noclmul-sse", "noaes", "purego", "ia32"]
 
 PLAN = dict(
     level="exploration",
